@@ -96,7 +96,7 @@ LEVEL_NOTE = (
     "prov=False twin crashed the run with a foreign-key error (commit d273f7b).")
 TECHNIQUE = "Lean 4 proof on a hand-written recorder model + whole-database differential audit of real deterministic runs"
 
-KINDS = ["leaf", "fail", "par", "comb", "catch", "tags", "then"]
+KINDS = ["leaf", "fail", "par", "comb", "catch", "tags", "tags2", "then"]
 
 
 # ------------------------------------------------------------------ generator
@@ -116,8 +116,15 @@ def gen_spec(rng, depth, labels, pool):
             kind, n = "comb", rng.choice([1, 2, 3])
         elif k < 0.76:
             kind, n = "catch", 1
-        elif k < 0.88:
+        elif k < 0.82:
             kind, n = "tags", rng.choice([0, 1, 1])
+        elif k < 0.88:
+            # two tagged values in one job; half of the time two different calls that return the same value
+            lab2 = rng.choice(labels)
+            s = ("tags2", lab, ((rng.choice(["A", "T"]), "", ("leaf", lab2, ())),
+                                ("B", "", ("leaf", lab2 if rng.random() < 0.5 else rng.choice(labels), ()))))
+            pool.append(s)
+            return s
         else:
             kind, n = "then", rng.choice([2, 3])
         s = (kind, lab, tuple(gen_call(rng, depth - 1, labels, pool) for _ in range(n)))
@@ -135,6 +142,10 @@ def gen_call(rng, depth, labels, pool):
 def mutate(rng, spec, labels):
     """Replace one sub-spec (or a label) so that the next execution shares part of the tree."""
     kind, lab, calls = spec
+    if kind == "tags2":
+        # kept whole: with a failing child the job is rejected while its other apply_tags may or may not have completed,
+        # so which of its tags are recorded is timing dependent (not demanded either way)
+        return (kind, rng.choice(labels), calls)
     if not calls or rng.random() < 0.3:
         return (kind, rng.choice(labels), calls) if rng.random() < 0.5 else gen_spec(rng, 1, labels, [])
     i = rng.randrange(len(calls))
@@ -206,6 +217,10 @@ CORPUS = [
     # a tagged shallow-validity task replayed in a second execution (ultimate-reduction hit), also below another root
     [E(c("U", S("par", 0, c("A", leaf(1))))), E(c("U", S("par", 0, c("A", leaf(1))))),
      E(c("A", S("par", 5, c("U", S("par", 0, c("A", leaf(1))), "tg"), c("U", S("par", 0, c("A", leaf(1)))))), "lifo")],
+    # one job applies two different tag lists to two values that hash equally (results of two different calls), and to two
+    # different values; replayed (single reduction re-evaluates both apply_tags)
+    [E(c("A", S("par", 0, c("A", S("tags2", 1, c("A", leaf(4)), c("B", leaf(4)))), c("B", S("tags2", 2, c("A", leaf(4)), c("B", leaf(5))))))),
+     E(c("A", S("par", 0, c("A", S("tags2", 1, c("A", leaf(4)), c("B", leaf(4)))), c("B", S("tags2", 2, c("A", leaf(4)), c("B", leaf(5)))))), "lifo")],
     # root without provenance; a single leaf
     [E(c("A", S("par", 0, c("A", leaf(1))), "np"))],
     [E(c("A", leaf(0)))],
@@ -292,6 +307,13 @@ class Audit:
         if r.task_name in ("gm.tA", "gm.tB", "gm.tS", "gm.tN", "gm.tT", "gm.tU") and r.eval_args:
             spec = r.eval_args[0][0]
         body_evaluated = r.outcome == "ok" and not is_hit(r)
+        if spec is not None and spec[0] == "tags2" and body_evaluated:
+            # two apply_tags in one job; the two values may hash equally: BOTH tag lists belong to that value
+            v0, v1 = r.result
+            vt.append((self.vh(v0), "vk", spec[1]))
+            vt.append((self.vh(v1), "vk2", spec[1]))
+            vt.append((self.vh(v1), "vk3", spec[1] + 1))
+            jt.append(("jk2", spec[1]))
         if spec is not None and spec[0] == "tags" and body_evaluated:
             vt.append((self.vh(r.result), "vk", spec[1]))
             jt.append(("jk", spec[1]))
